@@ -96,4 +96,4 @@ try:
         print('kept as', d)
 finally:
     subprocess.run(['git', '-C', '/repo', 'worktree', 'remove', '--force', wt], capture_output=True)
-    shutil.rmtree('/verif/.work/alt', ignore_errors=True)
+    shutil.rmtree('/verif/.work/alt/' + os.path.basename(wt), ignore_errors=True)
